@@ -11,8 +11,11 @@ import FranzVerif.Spec.C20
         negative-ascii-number    an `{ascii}` number of the case is negative
         layout-rejected / panic / hang / roundtrip   anything else
   rd <ast> <layoutHex> <chunk> <streamHex>   | R=<rec>/…/<term>
-      the reader alone on arbitrary bytes (truncated / mutated formatter output, hostile sizes): model and
-      implementation are compared, verdict `-`.
+      the reader alone on arbitrary bytes (truncated / mutated formatter output, hostile sizes; also the
+      formatter's own output for cases outside the proved class): model and implementation are compared, verdict `-`.
+  fm <ast> <layoutHex> <chunk> <k> <rec>*k   | S=<hex>
+      the formatter alone (emitted next to every rt case outside the proved class, because the pipeline does not
+      report model/implementation differences on lines whose verdict is a known finding): compared, verdict `-`.
 
 `<ast>`: items joined by `,`: `L<hex>` literal, `N:<T|K|V|H|p|o|e|d|x|y>:<fmt>`, `X:<t|k|v>:<p|h|b>`,
 `H(<items joined by ;>)`.  `<fmt>`: a h64 h32 h16 h8 h4 b64 b32 b16 l64 l32 l16 y(byte) o(bool).
@@ -140,6 +143,13 @@ def stepLine (_ : Unit) (line : String) : Unit × String :=
         else "0:roundtrip"
       let nt := boolStr (k > 0 && hasField L)
       ((), s!"{mout} | {verdict} | {nt}")
+    | _, _, _ => ((), "bad-op | - | 0")
+  | "fm" :: ast :: _lay :: _chunk :: k :: recs =>
+    match pLayout ast, k.toNat?, recs.mapM pRec with
+    | some L, some k, some rs =>
+      if k != rs.length then ((), "bad-op | - | 0") else
+      if !supported L then ((), "unsupported-layout | - | 0") else
+      ((), s!"S={toHex (formatAll L rs)} | - | {boolStr (k > 0 && hasField L)}")
     | _, _, _ => ((), "bad-op | - | 0")
   | ["rd", ast, _lay, _chunk, stream] =>
     match pLayout ast, pBytes stream with
